@@ -11,6 +11,8 @@ rundemo () {
   case $kind in
     lib) (cd OUT/$m && cc -g -fsanitize=address -I$wt demo.c $wt/_build/libmir_static.a -lm -ldl -lpthread -o demo 2>/dev/null && ./demo >/dev/null 2>&1; echo $?) ;;
     c2m) (sh OUT/$m/demo.sh >/dev/null 2>&1; echo $?) ;;
+    lib2) (gcc -O1 -w -I. OUT/$m/demo.c _build/libmir_static.a -lm -ldl -lpthread -o OUT/$m/demo.bin 2>/dev/null && OUT/$m/demo.bin >/dev/null 2>&1; echo $?) ;;
+    sh2) (sh OUT/$m/demo.sh $wt >/dev/null 2>&1; echo $?) ;;
     hdr2) (cd OUT/$m && cc -O1 -I$wt -o demo demo.c 2>/dev/null && ./demo >/dev/null 2>&1; echo $?) ;;
     hdr) (cd OUT/$m && gcc -g -O1 -DNDEBUG -fsanitize=address -I$wt demo.c -o demo 2>/dev/null && ./demo >/dev/null 2>&1; echo $?) ;;
   esac
